@@ -41,6 +41,7 @@ def check(ctx):
                   "never completes a connection)")
     cutoff_detection(ctx)
     timer_time_base(ctx)
+    stamper_aliases(ctx)
     ctx.rule("T4-lifecycle", "receive()/send() of the client transports only classify errors and flag cutoff: they never close/open the socket")
     for cn in ("Client", "ClientTls"):
         for meth in ("receive", "send"):
@@ -148,3 +149,18 @@ def timer_time_base(ctx):
                               "the transport's reconnect timer must run on the time base its owner advances: without it a "
                               "reconnectable client that was cut off waits for a timer that never expires and never reopens")
     ctx.floor("T5-timebase:sites", sites, 5)
+
+
+def stamper_aliases(ctx):
+    """a stack advances its time with stamper.advanceStamp(delta) (the Store interface name of Stamper.advance): the alias must be
+    bound to the method it is named after"""
+    ctx.rule("T6-stamper", "Stamper.advanceStamp is advance, Stamper.changeStamp is change (class-level aliases)")
+    C = ctx.cls("aid.timing", "Stamper")
+    for alias, want in (("advanceStamp", "advance"), ("changeStamp", "change")):
+        sts = [st for st in C.node.body if isinstance(st, ast.Assign) and any(isinstance(t, ast.Name) and t.id == alias for t in st.targets)]
+        defs = [st for st in C.node.body if isinstance(st, ast.FunctionDef) and st.name == alias]
+        ok = (len(sts) == 1 and not defs and isinstance(sts[0].value, ast.Name) and sts[0].value.id == want) or \
+            (len(defs) == 1 and not sts)
+        ctx.check(ok, "T6-stamper", sts[0] if sts else C.node, "Stamper.%s = %s" % (alias, want),
+                  "advanceStamp bound to change() *sets* the stamp to the increment instead of adding it: stack time never passes "
+                  "the reconnect timer's stop, so a cut-off reconnectable client never reopens")
